@@ -159,6 +159,7 @@ def project_runstate(run):
     """events for RunStateTrace.tla"""
     out = []
     failed, w1, writer, scope, mrestart, pstate = [], [], False, False, False, "Stopped"
+    edited = False
     for e in run["events"]:
         k = e["e"]
         if k == "tickBegin":
@@ -166,6 +167,8 @@ def project_runstate(run):
         elif k == "req" and e["k"] == "control":
             out.append({"e": "req", "t": e["t"], "name": e["name"], "state": e["state"], "paused": e["paused"],
                         "holding": e["holding"], "res": "ok" if e["res"] == "ok" else "rejected"})
+        elif k == "req" and e["k"] == "edit" and e["res"] == "merge_method":
+            edited = True
         elif k == "flag":
             if e["f"] == "failed" and e["new"] == "True" and e["n"].startswith("L"):     # method lines (injected code has no line)
                 failed.append(e["n"])
@@ -184,7 +187,9 @@ def project_runstate(run):
                         "status": e["status"], "err": e["err"], "ctl": e["ctl"], "ptu": e["ptu"], "rtu": e["rtu"],
                         "btu": e["btu"], "stu": e["stu"], "block": e["block"], "out1": e["out"]["Out1"], "hw1": e["hw"]["Out1"],
                         "w1": w1, "failedNodes": failed, "mfailed": e["mstate"].get("failed", []), "scopeChange": scope,
-                        "writerExec": writer, "methodRestart": mrestart, "pstate": pstate})
+                        "writerExec": writer, "methodRestart": mrestart, "pstate": pstate, "edited": edited})
+            if not e["started"]:
+                edited = False
             failed, w1, writer, scope, mrestart = [], [], False, False, False
     return {"id": run["id"], "ev": out}
 
